@@ -547,3 +547,61 @@ func VH_C11_ReturnsAtStall(sk, extra int) {
 	vAssert(snap != nil && err == nil, "the finished report is returned")
 	vAssert(!f.blocked, "the scan returns without asking the stalled producer for more")
 }
+
+func vhScanOnce(data []byte, ewd bool, chunk int) (ngor int, fwd, suffix []byte, err error) {
+	f := &vhFeeder{data: data, errWithData: ewd, chunk: chunk}
+	w := &vhSink{}
+	snap, suffix, err := ScanSnapshot(f, w, &Opts{})
+	ngor = -1
+	if snap != nil {
+		ngor = len(snap.Goroutines)
+	}
+	return ngor, w.buf, suffix, err
+}
+
+// vhErrClass: nil, io.EOF, or a parse error (built afresh by every call).
+func vhErrClass(err error) int {
+	switch err {
+	case nil:
+		return 0
+	case io.EOF:
+		return 1
+	}
+	return 2
+}
+
+func vhSameBytes(a, b []byte) bool {
+	if len(a) != len(b) {
+		return false
+	}
+	same := true
+	for i := range a {
+		same = vAnd(same, a[i] == b[i])
+	}
+	return same
+}
+
+// VH_C06_ScanTwice: nothing observable depends on earlier calls in the same
+// process: the same stream, delivered the same way (whole or in 7-byte pieces,
+// the end signalled with or after the last data), scanned three times in a row
+// from fresh readers gives the same snapshot size, forwarded text, remainder
+// and error each time. (State kept between calls - caches, pools - must not
+// leak into results; sync.Pool is modelled as returning either a recycled or a
+// new object.)
+//
+//verif:prop C06
+//verif:param sk 1,2,4,6,9
+//verif:param ewd 0..1
+//verif:param chunk 0,7
+func VH_C06_ScanTwice(sk, ewd, chunk int) {
+	sp := vhSkeleton(sk)
+	n1, f1, s1, e1 := vhScanOnce(sp.data, ewd == 1, chunk)
+	for iter := 0; iter < 2; iter++ {
+		n2, f2, s2, e2 := vhScanOnce(sp.data, ewd == 1, chunk)
+		vAssert(n1 == n2, "a repeated scan finds the same snapshot")
+		vAssert(vhErrClass(e1) == vhErrClass(e2), "a repeated scan returns the same error")
+		vAssert(vhSameBytes(f1, f2), "a repeated scan forwards the same text")
+		vAssert(vhSameBytes(s1, s2), "a repeated scan returns the same remainder")
+	}
+	vReach("scanned repeatedly")
+}
